@@ -46,6 +46,12 @@ def run(ctx):
              'unmodified chunk (see also C06)')
     _capture_fold(ctx)
     _schedules(ctx)
+    from . import c06
+    rep.rule('R6.1', 'R1.7: chunks are delivered unmodified')
+    rep.rule('R6.2', 'R1.7: every inspector is fed every chunk, whether or '
+             'not format/formats were queried in between')
+    rep.rule('R6.4', 'R1.7: EOF handling')
+    c06.query_invariance(ctx)
 
 
 # ------------------------------------------------------------------ R1.0
@@ -259,6 +265,7 @@ def _schedules(ctx):
     for (cls, key, sched), res in results.items():
         groups.setdefault(key, {})[sched] = res
     diffs, und, n_ok = {}, {}, {}
+    seen_classes = set()
     geometry, tails = {}, {}
     for key, by in sorted(groups.items()):
         fmt, label = meta[key]
@@ -277,7 +284,12 @@ def _schedules(ctx):
                 if g and g[0] == 'unevaluable':
                     continue
             _geometry(fmt, label, res, geometry, tails)
+        errs = set(v[4] for v in verdicts.values())
+        if errs == {'ImageFormatError'}:
+            # the inspector itself refused the stream, in every schedule
+            cls_key = cls_key + ' refused stream'
         n_ok[cls_key] = n_ok.get(cls_key, 0) + 1
+        seen_classes.add(cls_key)
         rep.evaluations += len(verdicts)
         if len(set(verdicts.values())) > 1:
             ref = verdicts.get('giant')
@@ -287,7 +299,7 @@ def _schedules(ctx):
         rep.nontrivial.add((cls_key, str(sorted(set(map(str,
                                                         verdicts.values()
                                                         )))))[:300])
-    for cls_key in sorted(set(_class_of(*meta[k]) for k in imgs)):
+    for cls_key in sorted(seen_classes | set(und)):
         if cls_key in und:
             rep.undecided('R1.2', 'schedule-independence[%s]' % cls_key,
                           'image %r, schedule %s: %s' % und[cls_key])
